@@ -538,6 +538,12 @@ func runCase(c schedCase, quiet time.Duration) (res result) {
 			W.mu.Lock()
 			e := W.inflight[i]
 			W.mu.Unlock()
+			for k := 0; e == nil && k < 200; k++ { // replayed op lists: the executor may not have been created yet
+				time.Sleep(5 * time.Millisecond)
+				W.mu.Lock()
+				e = W.inflight[i]
+				W.mu.Unlock()
+			}
 			if e == nil {
 				res.Monitor = append(res.Monitor, fmt.Sprintf("replay-op-not-applicable:%s", op))
 				res.Hang = true
